@@ -1,2 +1,44 @@
-Theorem C05_placeholder : True. Proof. exact I. Qed.
-Print Assumptions C05_placeholder.
+(* C05 — assembling any input terminates cleanly.
+   Lexer.lex_sends is the lexer goroutine of lex.go as the list of tokens it sends
+   (fuel 2*|input|+4 state functions), ForExpand.for_expand the FOR expander
+   goroutine of forexpand.go (sends, "left blocked" flag, what Tokens() returns);
+   both are run against gmars on every run (hook kinds 20 / 21 and whole programs,
+   with goroutine counts before and after). *)
+From GM Require Import Base Text Token Lexer Scanner ExprSpec ExprEval ForExpand Parser Compile Sim
+     C05Lexer C05Expander.
+Open Scope N_scope.
+
+(* the property at full strength, on the model: assembling never runs out of fuel (fuel is linear in
+   the size of the input after expansion), and neither goroutine is left behind *)
+Definition C05_full_statement : Prop :=
+  forall cfg inp, compile_warrior cfg inp <> COutOfFuel.
+
+(* proved, part 1: the lexer.  For EVERY input (any runes: invalid UTF-8 replacement runes, NUL, ^Z,
+   CR/LF, unterminated last lines) and every classification of runes, the goroutine ends within
+   2*|input|+4 state functions and what it sends is ordinary tokens followed by exactly one terminal
+   token, so Tokens() receives every send and the goroutine is not left blocked *)
+Theorem C05_lexer_ends_partial :
+  forall is_space is_letter is_digit inp,
+    exists s, lex_sends is_space is_letter is_digit inp = Some s /\ closed_stream s.
+Proof. exact lex_sends_closed. Qed.
+Print Assumptions C05_lexer_ends_partial.
+
+Theorem C05_lexer_tokens :
+  forall inp, exists s, lex_ascii inp = Some s /\ closed_stream s.
+Proof. exact lex_ascii_total. Qed.
+Print Assumptions C05_lexer_tokens.
+
+(* proved, part 2: the FOR expander.  For EVERY token stream and symbol table, when the pass ends the
+   goroutine has sent ordinary tokens followed by at most one terminal token, the last thing it sent:
+   it is never left blocked on a send, and what Tokens() returns ends with exactly one terminal token *)
+Theorem C05_expander_clean_partial :
+  forall toks symbols r,
+    for_expand toks symbols = Some (Some r) ->
+    fr_stuck r = false /\ okfinal (fr_sends r) /\ closed_stream (fr_tokens r).
+Proof. exact for_expand_clean. Qed.
+Print Assumptions C05_expander_clean_partial.
+
+(* missing: that the fuel of the expander pass (4*|tokens|+8), of the symbol scanner, of the parser and of
+   the EQU graph / substitution loops always suffices (C05_full_statement).  A model run that exhausts its
+   fuel answers COutOfFuel, which the correspondence reports as a disagreement with gmars, so the gap is
+   covered by differential testing only. *)
